@@ -6,7 +6,7 @@
     arbitrary times, issue reports, deliveries, send requests), every policy [pol] (an arbitrary
     function [path -> option bool]; [None] = the policy cannot be evaluated, e.g. no metadata)
     and every decay function. *)
-From Sci Require Import PathMgr.Model PathMgr.Proofs.
+From Sci Require Import PathMgr.Model PathMgr.Proofs PathMgr.Proofs_C06.
 Local Open Scope N_scope.
 
 Section C05.
@@ -48,10 +48,14 @@ Qed.
 Theorem send_returns_allowed :
   forall (c : cfg) (t0 : N) (evs : list ev) (e : ev) s' p,
     step pol decay c (run pol decay c (init_st c t0) evs) e = (s', OPath p) ->
-    pol p = Some true /\ In p (fetched pol decay c (init_st c t0) evs).
+    pol p = Some true /\ In p (fetched pol decay c (init_st c t0) evs) /\
+    (* ... from the most recent lookup or an earlier one STILL VALID: not expired at hand-out *)
+    (forall x, p_exp p = Some x -> ev_time e / NS < U32 -> ev_time e < x * NS).
 Proof.
-  intros c t0 evs e s' p E. apply step_out_path in E.
-  exact (proj1 (proj2 (policy_invariant c t0 evs)) p E).
+  intros c t0 evs e s' p E. pose proof (step_out_live pol decay c _ e s' p E) as [_ L].
+  apply step_out_path in E.
+  destruct (proj1 (proj2 (policy_invariant c t0 evs)) p E) as [A B].
+  refine (conj A (conj B _)). intros x Hx Hu. eapply not_expired_at_handout; eauto.
 Qed.
 
 (** If no path fetched so far satisfies the policy the caller gets an error / no path, never an
